@@ -516,6 +516,18 @@ let sql (lines : string list) =
                     | Err -> Err | Panic -> Panic | Hang -> Hang) in
                  pr_rowset "SQL" (Printf.sprintf "%s.%d" id j) r) argsets);
             go rest'
+          | "SQLPREPSLEEP" ->
+            let id = next c in let h = next c in let text = next_str c in
+            (match Hashtbl.find_opt dbs h with
+             | None -> pr "SQL %s.0 NODB\nSQL %s.1 NODB\n" id id
+             | Some (ds, pre, valid) ->
+               List.iter (fun j ->
+                 let r = if not valid then Err else
+                   (match index_of ds pre with
+                    | Ok ix -> m_prepared_query ix text []
+                    | Err -> Err | Panic -> Panic | Hang -> Hang) in
+                 pr_rowset "SQL" (Printf.sprintf "%s.%d" id j) r) [0; 1]);
+            go rest
           | "SQLCLOSE" -> let h = next c in Hashtbl.remove dbs h; pr "SQLCLOSE %s OK\n" h; go rest
           | "SQLPROBE" -> let id = next c in pr "SQLPROBE %s RELEASED\n" id; go rest
           | "SQLCONC" | "SQLCHURN" | "DOPEN" | "DQUERY" | "DCLOSE" | "RELPATHS" -> go rest
